@@ -171,12 +171,23 @@ fn evaluate(fam: &SurfaceFamily, work: &str, bytes_list: Vec<Vec<u8>>, ctx_for: 
         let ids: Vec<usize> = (pc.first_id..pc.first_id + pc.names.len()).collect();
         if let Some(bad) = ids.iter().find(|id| batch.uncompilable.contains_key(id)) {
             uncompilable += 1;
-            let mut info = CaseInfo::skip("uncompilable");
-            info.sample = Some(json!({ "uncompilable": batch.uncompilable[bad], "program": pc.program.show() }));
             if uncompilable <= 3 {
                 let msg: String = batch.uncompilable[bad].chars().take(300).collect();
                 eprintln!("note: generated case does not compile ({}): {}", msg, crate::emit::Emitter::new(&pc.names[0], pc.program.nq).query(&pc.program));
             }
+            // the emissions that did compile are still judged (against the reference)
+            let ok: Vec<usize> = (0..ids.len()).filter(|k| !batch.uncompilable.contains_key(&ids[*k]) && batch.results.contains_key(&ids[*k])).collect();
+            if ok.is_empty() {
+                let mut info = CaseInfo::skip("uncompilable");
+                info.sample = Some(json!({ "uncompilable": batch.uncompilable[bad], "program": pc.program.show() }));
+                out.push((pc.bytes.clone(), info));
+                continue;
+            }
+            let outs: Vec<&CaseOut> = ok.iter().map(|k| &batch.results[&ids[*k]]).collect();
+            let names: Vec<crate::emit::Names> = ok.iter().map(|k| pc.names[*k].clone()).collect();
+            let ctx = ctx_for(i);
+            let mut info = judge(fam, &pc.program, &names, &pc.kinds, &outs, &ctx);
+            info.class("some-emission-uncompilable");
             out.push((pc.bytes.clone(), info));
             continue;
         }
